@@ -134,6 +134,18 @@ structure MemoVal where
   «end» : Savepoint
 deriving Inhabited, Repr
 
+/-- one evaluation of a terminal (literal, class, any matcher): where it started, the terminal's display
+    text, whether it matched, and whether it happened under an odd number of `!` predicates.
+    GHOST data: the Go parser keeps no such log; `failAt` - the one function every terminal calls exactly
+    once per evaluation - appends to it in the model, nothing ever reads it. It is what the farthest-failure
+    bookkeeping is a function of (C12). -/
+structure Attempt where
+  pos : Pos
+  want : String
+  matched : Bool
+  neg : Bool
+deriving Inhabited, DecidableEq, Repr
+
 /-- mirror of `type parser` (mutable part) -/
 structure PState where
   pt : Savepoint
@@ -157,6 +169,8 @@ structure PState where
   nCalls : Nat
   /-- block invocations, most recent first -/
   trace : List Event
+  /-- ghost: every terminal evaluation so far, most recent first (see `Attempt`) -/
+  attempts : List Attempt := []
 deriving Inhabited
 
 inductive Outcome where
@@ -236,7 +250,8 @@ def addErrAtOpt (E : Env) (s : PState) (o : Option String) (pos : Pos) : PState 
 
 def addErrOpt (E : Env) (s : PState) (o : Option String) : PState := addErrAtOpt E s o s.pt.pos
 
-def failAt (s : PState) (fail : Bool) (pos : Pos) (want : String) : PState :=
+/-- `failAt` as it is in static_code.go -/
+def failAtCore (s : PState) (fail : Bool) (pos : Pos) (want : String) : PState :=
   if fail == s.maxFailInvert then
     if pos.off < s.maxFailPos.off then s
     else
@@ -245,6 +260,11 @@ def failAt (s : PState) (fail : Bool) (pos : Pos) (want : String) : PState :=
       let want := if s.maxFailInvert then "!" ++ want else want
       { s1 with maxFailExpected := want :: s1.maxFailExpected }
   else s
+
+/-- `failAt` plus the ghost log of terminal evaluations -/
+def failAt (s : PState) (fail : Bool) (pos : Pos) (want : String) : PState :=
+  { failAtCore s fail pos want with
+    attempts := { pos := pos, want := want, matched := fail, neg := s.maxFailInvert } :: s.attempts }
 
 /-- `read`: advance to the next rune -/
 def read (E : Env) (s : PState) : PState :=
